@@ -16,6 +16,8 @@ type ask struct {
 	respBuf []byte
 	n       int
 	errCode uint8
+	// short is set when the response did not fit in respBuf
+	short bool
 }
 
 func (a *ask) await(ctx context.Context) error {
@@ -31,6 +33,7 @@ func (a *ask) await(ctx context.Context) error {
 func (a *ask) complete(resp []byte, errCode uint8) {
 	a.once.Do(func() {
 		a.errCode = errCode
+		a.short = len(resp) > len(a.respBuf)
 		a.n = copy(a.respBuf, resp)
 		close(a.done)
 	})
